@@ -36,6 +36,14 @@ type Owner struct {
 	// belongs to, second flavour: value foreign key and value field
 	ChiefID uint
 	Chief   Chief
+	// composite-keyed targets (ID, Rev): Rev = 0 is a legitimate key part
+	Docs []Doc  `gorm:"foreignKey:OwnerID"`   // has many
+	Refs []*Ref `gorm:"many2many:owner_refs"` // many to many
+	// relations over a unique NON-primary column (references:Code)
+	Code      string `gorm:"uniqueIndex"` // "oc<ID>"
+	GuildCode *string
+	Guild     *Guild  `gorm:"foreignKey:GuildCode;references:Code"` // belongs to
+	Badges    []Badge `gorm:"foreignKey:OwnerCode;references:Code"` // has many
 	// string-keyed targets: keys that differ only in letter case are different records
 	Parts []Part  `gorm:"foreignKey:OwnerID"`    // has many, children with a string primary key
 	Langs []*Lang `gorm:"many2many:owner_langs"` // many to many, string primary key
@@ -82,6 +90,31 @@ type Lang struct {
 	Name string
 }
 
+type Doc struct {
+	ID      uint `gorm:"primaryKey;autoIncrement:false"`
+	Rev     uint `gorm:"primaryKey;autoIncrement:false"`
+	Name    string
+	OwnerID *uint
+}
+
+type Ref struct {
+	ID   uint `gorm:"primaryKey;autoIncrement:false"`
+	Rev  uint `gorm:"primaryKey;autoIncrement:false"`
+	Name string
+}
+
+type Guild struct {
+	ID   uint   `gorm:"primaryKey"`
+	Code string `gorm:"uniqueIndex"` // "c-" + Name
+	Name string
+}
+
+type Badge struct {
+	ID        uint `gorm:"primaryKey"`
+	Name      string
+	OwnerCode *string
+}
+
 type Tag struct {
 	ID   uint `gorm:"primaryKey"`
 	Name string
@@ -96,6 +129,10 @@ func (Tag) TableName() string   { return "tags" }
 func (Chief) TableName() string { return "chiefs" }
 func (Part) TableName() string  { return "parts" }
 func (Lang) TableName() string  { return "langs" }
+func (Doc) TableName() string   { return "docs" }
+func (Ref) TableName() string   { return "refs" }
+func (Guild) TableName() string { return "guilds" }
+func (Badge) TableName() string { return "badges" }
 
 const (
 	hasOne    = "has-one"
@@ -111,6 +148,9 @@ type relSpec struct {
 	Table string
 	Elem  reflect.Type
 	Str   bool   // string primary key "Code" instead of the integer "ID"
+	Comp  bool   // composite primary key (ID, Rev)
+	PtrFK bool   // belongs-to whose foreign key field is a pointer
+	Ref   bool   // the foreign key refers to a unique non-primary column ("Code")
 	Join  string // join table (many to many)
 	JoinC string // target column of the join table
 }
@@ -119,11 +159,15 @@ var rels = []relSpec{
 	{Name: "One", Kind: hasOne, Table: "ones", Elem: reflect.TypeOf(One{})},
 	{Name: "Many", Kind: hasMany, Table: "manies", Elem: reflect.TypeOf(Many{})},
 	{Name: "Notes", Kind: poly, Table: "notes", Elem: reflect.TypeOf(Note{})},
-	{Name: "Boss", Kind: belongsTo, Table: "bosses", Elem: reflect.TypeOf(Boss{})},
+	{Name: "Boss", Kind: belongsTo, Table: "bosses", Elem: reflect.TypeOf(Boss{}), PtrFK: true},
 	{Name: "Tags", Kind: m2m, Table: "tags", Elem: reflect.TypeOf(Tag{}), Join: "owner_tags", JoinC: "tag_id"},
 	{Name: "Chief", Kind: belongsTo, Table: "chiefs", Elem: reflect.TypeOf(Chief{})},
 	{Name: "Parts", Kind: hasMany, Table: "parts", Elem: reflect.TypeOf(Part{}), Str: true},
 	{Name: "Langs", Kind: m2m, Table: "langs", Elem: reflect.TypeOf(Lang{}), Str: true, Join: "owner_langs", JoinC: "lang_code"},
+	{Name: "Docs", Kind: hasMany, Table: "docs", Elem: reflect.TypeOf(Doc{}), Comp: true},
+	{Name: "Refs", Kind: m2m, Table: "refs", Elem: reflect.TypeOf(Ref{}), Comp: true, Join: "owner_refs"},
+	{Name: "Guild", Kind: belongsTo, Table: "guilds", Elem: reflect.TypeOf(Guild{}), PtrFK: true, Ref: true},
+	{Name: "Badges", Kind: hasMany, Table: "badges", Elem: reflect.TypeOf(Badge{}), Ref: true},
 }
 
 func relByName(n string) relSpec {
@@ -168,8 +212,33 @@ func (r relSpec) keyText(h uint) string {
 	if r.Str {
 		return codeOf(h)
 	}
+	if r.Comp {
+		id, rev := compKey(h)
+		return fmt.Sprintf("%d.%d", id, rev)
+	}
 	return fmt.Sprint(h)
 }
+
+// textKey: the caller chooses the key of a new target (no auto increment) and the dump
+// shows the key as text.
+func (r relSpec) textKey() bool { return r.Str || r.Comp }
+
+// Composite keys: handle h <-> (ID, Rev) = ((h+1)/2, (h+1)%2): 1 = (1,0), 2 = (1,1), 3 = (2,0), ...
+// Every second key has the legitimate zero part Rev = 0.
+func compKey(h uint) (id, rev uint) { return (h + 1) / 2, (h + 1) % 2 }
+
+func compHandle(id, rev uint) uint {
+	if id == 0 {
+		return 0
+	}
+	return (id-1)*2 + rev + 1
+}
+
+var belongsToRels = []string{"Boss", "Chief", "Guild"}
+var m2mRels = []string{"Tags", "Langs", "Refs"}
+
+// guildCode is the referenced (non-primary) column value of a Guild: derived from its unique name.
+func guildCode(name string) string { return "c-" + name }
 
 // Setup is everything fixed before the first operation.
 type Setup struct {
@@ -190,12 +259,17 @@ type Val struct {
 	ID   uint
 	New  string
 	Code string // key of a new string-keyed target
+	Key  uint   // handle of the key of a new composite-keyed target
 }
 
 func (v Val) String() string {
 	if v.New != "" {
 		if v.Code != "" {
 			return "new(" + v.New + " key " + v.Code + ")"
+		}
+		if v.Key != 0 {
+			ki, kr := compKey(v.Key)
+			return fmt.Sprintf("new(%s key %d.%d)", v.New, ki, kr)
 		}
 		return "new(" + v.New + ")"
 	}
@@ -243,8 +317,8 @@ func (su Setup) String() string {
 			fk = append(fk, r.Name+"="+strings.Join(su.FK[r.Name], "|"))
 		}
 	}
-	return fmt.Sprintf("kind=%s owners=%d mem=%v mode=%s preload=%v seed{%s boss=%v chief=%v tags=%v langs=%v}",
-		su.Kind, su.NOwners, su.Mem, mode, su.Preload, strings.Join(fk, " "), su.BT["Boss"], su.BT["Chief"], su.Pairs["Tags"], su.Pairs["Langs"])
+	return fmt.Sprintf("kind=%s owners=%d mem=%v mode=%s preload=%v seed{%s boss=%v chief=%v guild=%v tags=%v langs=%v refs=%v}",
+		su.Kind, su.NOwners, su.Mem, mode, su.Preload, strings.Join(fk, " "), su.BT["Boss"], su.BT["Chief"], su.BT["Guild"], su.Pairs["Tags"], su.Pairs["Langs"], su.Pairs["Refs"])
 }
 
 // ---- reference model ------------------------------------------------------------------------------
@@ -255,13 +329,15 @@ type model struct {
 	holder  map[string]map[uint]string  // fk-family relation -> target key -> holder ("" = no link)
 	boss    map[string]map[uint]uint    // belongs-to relation -> owner -> target (0 = none)
 	pairs   map[string]map[[2]uint]bool // many-to-many relation -> (owner, target)
+	gcodes  map[uint]string             // guild handle -> its code (kept when the row is deleted)
 }
 
 func ownersHolder(o uint) string { return fmt.Sprintf("owners/%d", o) }
 
 func newModel(su Setup) *model {
 	m := &model{nOwners: su.NOwners, rows: map[string]map[uint]string{}, holder: map[string]map[uint]string{},
-		boss: map[string]map[uint]uint{"Boss": {}, "Chief": {}}, pairs: map[string]map[[2]uint]bool{"Tags": {}, "Langs": {}}}
+		boss: map[string]map[uint]uint{"Boss": {}, "Chief": {}, "Guild": {}}, pairs: map[string]map[[2]uint]bool{"Tags": {}, "Langs": {}, "Refs": {}},
+		gcodes: map[uint]string{}}
 	for _, r := range rels {
 		m.rows[r.Name] = map[uint]string{}
 		if r.fkFamily() {
@@ -274,10 +350,13 @@ func newModel(su Setup) *model {
 			}
 		}
 	}
-	for _, rn := range []string{"Boss", "Chief"} {
+	for _, rn := range belongsToRels {
 		for i, b := range su.BT[rn] {
 			m.boss[rn][uint(i+1)] = b
 		}
+	}
+	for id, n := range m.rows["Guild"] {
+		m.gcodes[id] = guildCode(n)
 	}
 	for rn, ps := range su.Pairs {
 		for _, p := range ps {
@@ -479,14 +558,18 @@ func (m *model) render() string {
 				es = append(es, fmt.Sprintf(" %s=%s", r.keyText(t), m.rows[r.Name][t]))
 			}
 		}
-		if r.Str {
+		if r.textKey() {
 			sort.Strings(es)
 		}
 		b.WriteString(r.Table + ":" + strings.Join(es, "") + "\n")
 	}
 	b.WriteString("owners:")
 	for o := uint(1); o <= uint(m.nOwners); o++ {
-		fmt.Fprintf(&b, " %d=o%d>boss/%d>chief/%d", o, o, m.boss["Boss"][o], m.boss["Chief"][o])
+		g := "-"
+		if h := m.boss["Guild"][o]; h != 0 {
+			g = m.gcodes[h]
+		}
+		fmt.Fprintf(&b, " %d=o%d>boss/%d>chief/%d>guild/%s", o, o, m.boss["Boss"][o], m.boss["Chief"][o], g)
 	}
 	b.WriteString("\n")
 	for _, r := range rels {
@@ -502,7 +585,7 @@ func (m *model) render() string {
 		for _, p := range ps {
 			es = append(es, fmt.Sprintf(" %d-%s", p[0], r.keyText(p[1])))
 		}
-		if r.Str {
+		if r.textKey() {
 			sort.Strings(es)
 		}
 		b.WriteString(r.Join + ":" + strings.Join(es, "") + "\n")
@@ -517,11 +600,11 @@ var ddlCache []string
 func openDB(su Setup) *testdb.DB {
 	d := testdb.Open(testdb.Options{Config: gorm.Config{DisableForeignKeyConstraintWhenMigrating: true}})
 	if ddlCache == nil {
-		if err := d.AutoMigrate(&Owner{}, &One{}, &Many{}, &Note{}, &Boss{}, &Tag{}, &Chief{}, &Part{}, &Lang{}); err != nil {
+		if err := d.AutoMigrate(&Owner{}, &One{}, &Many{}, &Note{}, &Boss{}, &Tag{}, &Chief{}, &Part{}, &Lang{}, &Doc{}, &Ref{}, &Guild{}, &Badge{}); err != nil {
 			panic("harness: migrate: " + err.Error())
 		}
 		var stmts []string
-		if err := d.Raw("SELECT sql FROM sqlite_master WHERE sql IS NOT NULL AND name NOT LIKE 'sqlite_%' ORDER BY rowid").Scan(&stmts).Error; err != nil || len(stmts) < 11 {
+		if err := d.Raw("SELECT sql FROM sqlite_master WHERE sql IS NOT NULL AND name NOT LIKE 'sqlite_%' ORDER BY rowid").Scan(&stmts).Error; err != nil || len(stmts) < 16 {
 			panic(fmt.Sprintf("harness: capture ddl: %v %v", err, stmts))
 		}
 		ddlCache = stmts
@@ -533,14 +616,17 @@ func openDB(su Setup) *testdb.DB {
 	// seed rows and links with plain SQL (domain note D2)
 	var q strings.Builder
 	for o := 1; o <= su.NOwners; o++ {
-		b, c := "NULL", "NULL"
+		b, c, g := "NULL", "NULL", "NULL"
 		if su.BT["Boss"][o-1] != 0 {
 			b = fmt.Sprint(su.BT["Boss"][o-1])
 		}
 		if su.BT["Chief"][o-1] != 0 {
 			c = fmt.Sprint(su.BT["Chief"][o-1])
 		}
-		fmt.Fprintf(&q, "INSERT INTO owners (id, name, boss_id, chief_id) VALUES (%d, 'o%d', %s, %s);\n", o, o, b, c)
+		if su.BT["Guild"][o-1] != 0 {
+			g = fmt.Sprintf("'%s'", guildCode(fmt.Sprintf("guild%d", su.BT["Guild"][o-1])))
+		}
+		fmt.Fprintf(&q, "INSERT INTO owners (id, name, code, boss_id, chief_id, guild_code) VALUES (%d, 'o%d', 'oc%d', %s, %s, %s);\n", o, o, o, b, c, g)
 	}
 	for _, r := range rels {
 		for id := 1; id <= poolSize; id++ {
@@ -562,11 +648,24 @@ func openDB(su Setup) *testdb.DB {
 				}
 				if r.Str {
 					fmt.Fprintf(&q, "INSERT INTO %s (code, name, owner_id) VALUES ('%s', '%s', %s);\n", r.Table, codeOf(uint(id)), name, fk)
+				} else if r.Comp {
+					ki, kr := compKey(uint(id))
+					fmt.Fprintf(&q, "INSERT INTO %s (id, rev, name, owner_id) VALUES (%d, %d, '%s', %s);\n", r.Table, ki, kr, name, fk)
+				} else if r.Ref {
+					if fk != "NULL" {
+						fk = "'oc" + fk + "'"
+					}
+					fmt.Fprintf(&q, "INSERT INTO %s (id, name, owner_code) VALUES (%d, '%s', %s);\n", r.Table, id, name, fk)
 				} else {
 					fmt.Fprintf(&q, "INSERT INTO %s (id, name, owner_id) VALUES (%d, '%s', %s);\n", r.Table, id, name, fk)
 				}
 			case r.Str:
 				fmt.Fprintf(&q, "INSERT INTO %s (code, name) VALUES ('%s', '%s');\n", r.Table, codeOf(uint(id)), name)
+			case r.Comp:
+				ki, kr := compKey(uint(id))
+				fmt.Fprintf(&q, "INSERT INTO %s (id, rev, name) VALUES (%d, %d, '%s');\n", r.Table, ki, kr, name)
+			case r.Ref: // guilds
+				fmt.Fprintf(&q, "INSERT INTO %s (id, name, code) VALUES (%d, '%s', '%s');\n", r.Table, id, name, guildCode(name))
 			default:
 				fmt.Fprintf(&q, "INSERT INTO %s (id, name) VALUES (%d, '%s');\n", r.Table, id, name)
 			}
@@ -577,6 +676,10 @@ func openDB(su Setup) *testdb.DB {
 	}
 	for _, p := range su.Pairs["Langs"] {
 		fmt.Fprintf(&q, "INSERT INTO owner_langs (owner_id, lang_code) VALUES (%d, '%s');\n", p[0], codeOf(p[1]))
+	}
+	for _, p := range su.Pairs["Refs"] {
+		ki, kr := compKey(p[1])
+		fmt.Fprintf(&q, "INSERT INTO owner_refs (owner_id, ref_id, ref_rev) VALUES (%d, %d, %d);\n", p[0], ki, kr)
 	}
 	if _, err := d.SQL.Exec(q.String()); err != nil {
 		panic("harness: seed: " + err.Error() + "\n" + q.String())
@@ -591,14 +694,20 @@ UNION ALL SELECT 2, id, name, coalesce(holder_id, 0), holder_type FROM notes
 UNION ALL SELECT 3, id, name, 0, '' FROM bosses
 UNION ALL SELECT 4, id, name, 0, '' FROM tags
 UNION ALL SELECT 5, id, name, 0, '' FROM chiefs
-UNION ALL SELECT 6, id, name, coalesce(boss_id, 0), cast(coalesce(chief_id, 0) AS text) FROM owners
+UNION ALL SELECT 6, id, name, coalesce(boss_id, 0), cast(coalesce(chief_id, 0) AS text) || '>guild/' || coalesce(guild_code, '-') FROM owners
 UNION ALL SELECT 7, owner_id, '', tag_id, '' FROM owner_tags
 UNION ALL SELECT 8, 0, name, coalesce(owner_id, 0), code FROM parts
 UNION ALL SELECT 9, 0, name, 0, code FROM langs
 UNION ALL SELECT 10, owner_id, '', 0, lang_code FROM owner_langs
+UNION ALL SELECT 11, 0, name, coalesce(owner_id, 0), id || '.' || rev FROM docs
+UNION ALL SELECT 12, 0, name, 0, id || '.' || rev FROM refs
+UNION ALL SELECT 13, owner_id, '', 0, ref_id || '.' || ref_rev FROM owner_refs
+UNION ALL SELECT 14, id, name, 0, '' FROM guilds
+UNION ALL SELECT 15, id, name, 0, coalesce(owner_code, '') FROM badges
 ORDER BY 1, 2, 4`
 
-// dump reads every table with plain SQL and renders it like model.render.
+// dump reads every table with plain SQL (a fresh query, never through the operated
+// objects) and renders it like model.render.
 func dump(d *testdb.DB) string {
 	d.Rec.Pause()
 	defer d.Rec.Resume()
@@ -607,8 +716,7 @@ func dump(d *testdb.DB) string {
 		panic("harness: dump: " + err.Error())
 	}
 	defer rows.Close()
-	parts := make([]strings.Builder, 8)
-	strParts := make([][]string, 11)
+	ent := make([][]string, 16)
 	for rows.Next() {
 		var tbl int
 		var id, fk uint
@@ -616,54 +724,60 @@ func dump(d *testdb.DB) string {
 		if err := rows.Scan(&tbl, &id, &name, &fk, &typ); err != nil {
 			panic("harness: dump scan: " + err.Error())
 		}
-		if tbl >= 8 { // string-keyed tables: entries are sorted as text, like model.render does
-			e := ""
-			switch {
-			case tbl == 8 && fk == 0:
-				e = fmt.Sprintf(" %s=%s>-", typ, name)
-			case tbl == 8:
-				e = fmt.Sprintf(" %s=%s>owners/%d", typ, name, fk)
-			case tbl == 9:
-				e = fmt.Sprintf(" %s=%s", typ, name)
-			default:
-				e = fmt.Sprintf(" %d-%s", id, typ)
-			}
-			strParts[tbl] = append(strParts[tbl], e)
-			continue
-		}
-		b := &parts[tbl]
+		e := ""
 		switch tbl {
 		case 0, 1:
 			if fk == 0 {
-				fmt.Fprintf(b, " %d=%s>-", id, name)
+				e = fmt.Sprintf(" %d=%s>-", id, name)
 			} else {
-				fmt.Fprintf(b, " %d=%s>owners/%d", id, name, fk)
+				e = fmt.Sprintf(" %d=%s>owners/%d", id, name, fk)
 			}
 		case 2:
 			if fk == 0 {
-				fmt.Fprintf(b, " %d=%s>-", id, name)
+				e = fmt.Sprintf(" %d=%s>-", id, name)
 			} else {
-				fmt.Fprintf(b, " %d=%s>%s/%d", id, name, typ, fk)
+				e = fmt.Sprintf(" %d=%s>%s/%d", id, name, typ, fk)
 			}
-		case 3, 4, 5:
-			fmt.Fprintf(b, " %d=%s", id, name)
+		case 3, 4, 5, 14:
+			e = fmt.Sprintf(" %d=%s", id, name)
 		case 6:
-			fmt.Fprintf(b, " %d=%s>boss/%d>chief/%s", id, name, fk, typ)
+			e = fmt.Sprintf(" %d=%s>boss/%d>chief/%s", id, name, fk, typ)
 		case 7:
-			fmt.Fprintf(b, " %d-%d", id, fk)
+			e = fmt.Sprintf(" %d-%d", id, fk)
+		case 8, 11: // text-keyed children
+			if fk == 0 {
+				e = fmt.Sprintf(" %s=%s>-", typ, name)
+			} else {
+				e = fmt.Sprintf(" %s=%s>owners/%d", typ, name, fk)
+			}
+		case 9, 12:
+			e = fmt.Sprintf(" %s=%s", typ, name)
+		case 10, 13:
+			e = fmt.Sprintf(" %d-%s", id, typ)
+		case 15: // children linked through the owner's code column "oc<ID>"
+			switch {
+			case typ == "":
+				e = fmt.Sprintf(" %d=%s>-", id, name)
+			case strings.HasPrefix(typ, "oc"):
+				e = fmt.Sprintf(" %d=%s>owners/%s", id, name, typ[2:])
+			default:
+				e = fmt.Sprintf(" %d=%s>?%s", id, name, typ)
+			}
 		}
+		ent[tbl] = append(ent[tbl], e)
 	}
 	var out strings.Builder
 	for _, t := range []struct {
-		n string
-		i int
-	}{{"ones", 0}, {"manies", 1}, {"notes", 2}, {"bosses", 3}, {"tags", 4}, {"chiefs", 5}, {"parts", 8}, {"langs", 9}, {"owners", 6}, {"owner_tags", 7}, {"owner_langs", 10}} {
-		if t.i >= 8 {
-			sort.Strings(strParts[t.i])
-			out.WriteString(t.n + ":" + strings.Join(strParts[t.i], "") + "\n")
-		} else {
-			out.WriteString(t.n + ":" + parts[t.i].String() + "\n")
+		n    string
+		i    int
+		text bool
+	}{{"ones", 0, false}, {"manies", 1, false}, {"notes", 2, false}, {"bosses", 3, false}, {"tags", 4, false}, {"chiefs", 5, false},
+		{"parts", 8, true}, {"langs", 9, true}, {"docs", 11, true}, {"refs", 12, true}, {"guilds", 14, false}, {"badges", 15, false},
+		{"owners", 6, false}, {"owner_tags", 7, false}, {"owner_langs", 10, true}, {"owner_refs", 13, true}} {
+		if t.text { // text keys: sorted as text, like model.render does
+			sort.Strings(ent[t.i])
 		}
+		out.WriteString(t.n + ":" + strings.Join(ent[t.i], "") + "\n")
 	}
 	return out.String()
 }
@@ -685,7 +799,7 @@ type hist struct {
 }
 
 func start(su Setup) *hist {
-	h := &hist{su: su, m: newModel(su), nextStr: map[string]uint{"Parts": poolSize + 1, "Langs": poolSize + 1}}
+	h := &hist{su: su, m: newModel(su), nextStr: map[string]uint{"Parts": poolSize + 1, "Langs": poolSize + 1, "Docs": poolSize + 1, "Refs": poolSize + 1}}
 	h.d = openDB(su)
 	load := func(id uint) *Owner {
 		o := &Owner{}
@@ -748,12 +862,23 @@ func (h *hist) fresh(r relSpec, v Val) reflect.Value {
 		if v.Code != "" {
 			p.Elem().FieldByName("Code").SetString(v.Code)
 		}
+		if v.Key != 0 { // composite key chosen by the caller
+			ki, kr := compKey(v.Key)
+			p.Elem().FieldByName("ID").SetUint(uint64(ki))
+			p.Elem().FieldByName("Rev").SetUint(uint64(kr))
+		}
+		if r.Name == "Guild" {
+			p.Elem().FieldByName("Code").SetString(guildCode(v.New))
+		}
 		return p
 	}
 	h.d.Rec.Pause()
 	var err error
 	if r.Str {
 		err = h.d.First(p.Interface(), "code = ?", codeOf(v.ID)).Error
+	} else if r.Comp {
+		ki, kr := compKey(v.ID)
+		err = h.d.First(p.Interface(), "id = ? AND rev = ?", ki, kr).Error
 	} else {
 		err = h.d.First(p.Interface(), v.ID).Error
 	}
@@ -800,6 +925,9 @@ func (h *hist) pack(r relSpec, vs []Val, form string) []interface{} {
 // handleOf reads the key of a target struct (0 = zero key; an unknown string key gets a
 // handle no model entry has).
 func handleOf(v reflect.Value, r relSpec) uint {
+	if r.Comp {
+		return compHandle(uint(v.FieldByName("ID").Uint()), uint(v.FieldByName("Rev").Uint()))
+	}
 	if !r.Str {
 		return uint(v.FieldByName("ID").Uint())
 	}
@@ -874,19 +1002,18 @@ func (h *hist) knownClass(s Step) string {
 		// UpdateColumns on the owner would store it. (Boss.Clear resets its own field first.)
 		for i := range h.su.Mem {
 			o := h.memOwner(i)
-			if (o.One != nil && o.One.ID == 0) || (s.Rel != "Boss" && o.Boss != nil && o.Boss.ID == 0) {
+			if (o.One != nil && o.One.ID == 0) || (s.Rel != "Boss" && o.Boss != nil && o.Boss.ID == 0) ||
+				(s.Rel != "Guild" && o.Guild != nil && o.Guild.ID == 0) {
 				return "hasone-zero-pointer"
 			}
 		}
 		// slice of owners whose other belongs-to relation differs: the same unrestricted
 		// UpdateColumns writes one owner's other foreign key to every owner of the slice
-		other := "Chief"
-		if s.Rel == "Chief" {
-			other = "Boss"
-		}
-		for _, o := range h.su.Mem {
-			if h.m.boss[other][o] != h.m.boss[other][h.su.Mem[0]] {
-				return "belongsto-clear-slice-other-fk"
+		for _, other := range belongsToRels {
+			for _, o := range h.su.Mem {
+				if other != s.Rel && h.m.boss[other][o] != h.m.boss[other][h.su.Mem[0]] {
+					return "belongsto-clear-slice-other-fk"
+				}
 			}
 		}
 		if s.Unscoped {
@@ -897,14 +1024,14 @@ func (h *hist) knownClass(s Step) string {
 			}
 		}
 	case "append", "replace":
-		if s.Unscoped && s.Rel == "Boss" { // pointer foreign key
+		if s.Unscoped && r.PtrFK { // pointer foreign key
 			for _, o := range h.su.Mem {
 				if current(o) != 0 {
 					return "belongsto-unscoped-replace-newtarget"
 				}
 			}
 		}
-		if s.Unscoped && s.Rel == "Chief" { // value foreign key: only re-setting the current target goes wrong
+		if s.Unscoped && !r.PtrFK { // value foreign key: only re-setting the current target goes wrong
 			for i, o := range h.su.Mem {
 				if c := current(o); c != 0 && s.Args[i][len(s.Args[i])-1].ID == c {
 					return "belongsto-unscoped-replace-same"
@@ -921,6 +1048,13 @@ func (h *hist) knownClass(s Step) string {
 					}
 					if !named {
 						return "belongsto-unscoped-delete-unnamed"
+					}
+				}
+			}
+			if r.Ref { // the named current target must be deleted, but is looked up by the wrong column
+				for _, o := range h.su.Mem {
+					if current(o) != 0 {
+						return "belongsto-unscoped-references-nonprimary"
 					}
 				}
 			}
@@ -990,6 +1124,12 @@ func (h *hist) step(s Step) string {
 					for _, c := range codes {
 						ids = append(ids, strHandles[c]) // 0 for a key nobody chose
 					}
+				} else if r.Comp {
+					var ks []struct{ ID, Rev uint }
+					h.d.Raw("SELECT id, rev FROM "+r.Table+" WHERE name = ?", v.New).Scan(&ks)
+					for _, k := range ks {
+						ids = append(ids, compHandle(k.ID, k.Rev))
+					}
 				} else {
 					h.d.Raw("SELECT id FROM "+r.Table+" WHERE name = ?", v.New).Scan(&ids)
 				}
@@ -1008,6 +1148,12 @@ func (h *hist) step(s Step) string {
 				}
 				if r.Str && codeOf(ids[0]) != v.Code {
 					return fail("new target %s is stored under key %q instead of %q", v.New, codeOf(ids[0]), v.Code)
+				}
+				if r.Comp && ids[0] != v.Key {
+					return fail("new target %s is stored under key %s instead of %s", v.New, r.keyText(ids[0]), r.keyText(v.Key))
+				}
+				if r.Name == "Guild" {
+					h.m.gcodes[ids[0]] = guildCode(v.New)
 				}
 				id = ids[0]
 				h.m.rows[r.Name][id] = v.New
@@ -1088,7 +1234,7 @@ func indent(s string) string {
 
 func genSetup(rt *rapid.T) Setup {
 	su := Setup{}
-	su.Kind = rapid.SampledFrom([]string{"One", "Many", "Notes", "Boss", "Chief", "Tags", "Parts", "Langs", "Parts", "Langs", "mixed", "mixed"}).Draw(rt, "kind")
+	su.Kind = rapid.SampledFrom([]string{"One", "Many", "Notes", "Boss", "Chief", "Tags", "Parts", "Langs", "Docs", "Refs", "Guild", "Badges", "mixed", "mixed"}).Draw(rt, "kind")
 	su.NOwners = rapid.IntRange(1, 3).Draw(rt, "owners")
 	su.Slice = rapid.IntRange(0, 2).Draw(rt, "mode") == 0
 	if su.Slice {
@@ -1131,7 +1277,7 @@ func genSetup(rt *rapid.T) Setup {
 		}
 	}
 	su.BT = map[string][]uint{}
-	for _, rn := range []string{"Boss", "Chief"} {
+	for _, rn := range belongsToRels {
 		for o := uint(1); o <= uint(su.NOwners); o++ {
 			b := uint(0)
 			if (!inMem(o) || su.Preload) && rapid.Bool().Draw(rt, "seed.hasBoss") {
@@ -1141,7 +1287,7 @@ func genSetup(rt *rapid.T) Setup {
 		}
 	}
 	su.Pairs = map[string][][2]uint{}
-	for _, rn := range []string{"Tags", "Langs"} {
+	for _, rn := range m2mRels {
 		for _, o := range holders {
 			for t := uint(1); t <= poolSize; t++ {
 				if rapid.IntRange(0, 3).Draw(rt, "seed.pair") == 0 {
@@ -1166,14 +1312,14 @@ func (h *hist) genStep(rt *rapid.T, allowUnscoped bool) (Step, stepInfo) {
 	s := Step{}
 	info := stepInfo{}
 	if h.su.Kind == "mixed" {
-		s.Rel = rapid.SampledFrom([]string{"One", "Many", "Notes", "Boss", "Chief", "Tags", "Parts", "Langs"}).Draw(rt, "rel")
+		s.Rel = rapid.SampledFrom([]string{"One", "Many", "Notes", "Boss", "Chief", "Tags", "Parts", "Langs", "Docs", "Refs", "Guild", "Badges"}).Draw(rt, "rel")
 	} else {
 		s.Rel = h.su.Kind
 	}
 	r := relByName(s.Rel)
 	s.Act = rapid.SampledFrom([]string{"append", "append", "append", "append", "replace", "replace", "delete", "delete", "delete", "clear", "count", "find"}).Draw(rt, "act")
 	if h.su.Kind == "mixed" && h.oneUnlinked && rapid.IntRange(0, 2).Draw(rt, "afterHasOneUnlink") == 0 {
-		s.Rel = rapid.SampledFrom([]string{"Boss", "Chief"}).Draw(rt, "clearRel")
+		s.Rel = rapid.SampledFrom(belongsToRels).Draw(rt, "clearRel")
 		s.Act = "clear"
 		r = relByName(s.Rel)
 	}
@@ -1283,8 +1429,12 @@ func (h *hist) genStep(rt *rapid.T, allowUnscoped bool) (Step, stepInfo) {
 		if v.New != "" {
 			h.newSeq++
 			v.New = fmt.Sprintf("n%d", h.newSeq)
-			if r.Str && s.Act != "delete" { // the caller chooses the key of a new string-keyed target
-				v.Code = codeOf(h.nextStr[r.Name])
+			if r.textKey() && s.Act != "delete" { // the caller chooses the key of a new string-/composite-keyed target
+				if r.Str {
+					v.Code = codeOf(h.nextStr[r.Name])
+				} else {
+					v.Key = h.nextStr[r.Name]
+				}
 				h.nextStr[r.Name]++
 			}
 		} else {
@@ -1394,6 +1544,14 @@ func TestC12(t *testing.T) {
 				classes["key:string"] = true
 				classes["key:string/"+r.Kind+"/"+s.Act+"/"+mode] = true
 			}
+			if r.Comp {
+				classes["key:composite"] = true
+				classes["key:composite/"+r.Kind+"/"+s.Act+"/"+mode] = true
+			}
+			if r.Ref {
+				classes["references:non-primary"] = true
+				classes["references:non-primary/"+r.Kind+"/"+s.Act+"/"+scope+"/"+mode] = true
+			}
 			classes["act:"+s.Act] = true
 			classes["scope:"+scope] = true
 			classes[r.Kind+"/"+s.Act+"/"+scope+"/"+mode] = true
@@ -1430,8 +1588,12 @@ func TestC12(t *testing.T) {
 		if su.Kind == "mixed" {
 			cl = append(cl, "history:mixed")
 		} else {
-			if relByName(su.Kind).Str {
-				cl = append(cl, "history:"+relByName(su.Kind).Kind+"+string-key")
+			if rk := relByName(su.Kind); rk.Str {
+				cl = append(cl, "history:"+rk.Kind+"+string-key")
+			} else if rk.Comp {
+				cl = append(cl, "history:"+rk.Kind+"+composite-key")
+			} else if rk.Ref {
+				cl = append(cl, "history:"+rk.Kind+"+references-non-primary")
 			} else {
 				cl = append(cl, "history:"+relByName(su.Kind).Kind)
 			}
@@ -1447,7 +1609,7 @@ func TestC12(t *testing.T) {
 
 func sliceSetup(kind string, n int) Setup {
 	su := plainSetup(kind)
-	su.NOwners, su.Slice, su.Mem, su.BT = n, true, nil, map[string][]uint{"Boss": make([]uint, n), "Chief": make([]uint, n)}
+	su.NOwners, su.Slice, su.Mem, su.BT = n, true, nil, map[string][]uint{"Boss": make([]uint, n), "Chief": make([]uint, n), "Guild": make([]uint, n)}
 	for o := 1; o <= n; o++ {
 		su.Mem = append(su.Mem, uint(o))
 	}
@@ -1471,7 +1633,7 @@ func per(rel, act string, unscoped bool, ids ...[]uint) Step {
 }
 
 func plainSetup(kind string) Setup {
-	su := Setup{Kind: kind, NOwners: 1, Mem: []uint{1}, FK: map[string][]string{}, BT: map[string][]uint{"Boss": {0}, "Chief": {0}}}
+	su := Setup{Kind: kind, NOwners: 1, Mem: []uint{1}, FK: map[string][]string{}, BT: map[string][]uint{"Boss": {0}, "Chief": {0}, "Guild": {0}}}
 	for _, r := range rels {
 		if r.fkFamily() {
 			su.FK[r.Name] = make([]string, poolSize)
@@ -1545,4 +1707,11 @@ func TestC12WitnessBelongsToUnscopedSameTarget(t *testing.T) {
 // runs `UPDATE owners SET boss_id = NULL, chief_id = 2 WHERE id IN (1,2)`: owner 1 loses chief c1.
 func TestC12WitnessBelongsToClearSliceOtherFK(t *testing.T) {
 	witness(t, sliceSetup("mixed", 2), per("Chief", "append", false, []uint{1}, []uint{2}), one("Boss", "clear", false))
+}
+
+// Guild is declared `foreignKey:GuildCode;references:Code`. Guild.Append(g1); Guild.Unscoped().Delete(g1)
+// must delete record g1, but runs `DELETE FROM guilds WHERE guilds.id = 'c-guild1'`: the value of the
+// foreign key is compared with the primary key column, g1 survives.
+func TestC12WitnessBelongsToUnscopedReferences(t *testing.T) {
+	witness(t, plainSetup("Guild"), one("Guild", "append", false, 1), one("Guild", "delete", true, 1))
 }
